@@ -928,3 +928,11 @@ package exec
 //@   ensures  every-partition-dropped-then-lost: implies(w.tasks[taskName.InvIndex] != nil && w.tasks[taskName.InvIndex][taskName] != nil && old(w.tasks[taskName.InvIndex][taskName].state) == TaskOk && w.tasks[taskName.InvIndex][taskName].NumPartition >= 0, w.tasks[taskName.InvIndex][taskName].state == TaskLost && storeDiscards == old(storeDiscards) + w.tasks[taskName.InvIndex][taskName].NumPartition)
 //@   modifies Task.state, Task.waitc, storeDiscards, w.combinerStates[:]
 //@   loop 1 invariant 0 <= partition && storeDiscards == old(storeDiscards) + partition && task.state == TaskRunning && task == w.tasks[taskName.InvIndex][taskName] && implies(task.NumPartition >= 0, partition <= task.NumPartition)
+
+// Err reports a task's failure exactly: the recorded error of an ERR task, ErrTaskLost for a LOST one, nil otherwise;
+// an ERR task without a recorded error is a broken invariant (panic), never a nil error.
+//@ func exec.(*Task).Err () (err)
+//@   requires t != nil
+//@   panics_if (t.state == TaskErr && t.err == nil) || t.state > TaskLost
+//@   ensures  err == ite(t.state == TaskErr, t.err, ite(t.state == TaskLost, ErrTaskLost, nil))
+//@   modifies nothing
